@@ -1,5 +1,7 @@
 // Common covfie includes and small helpers for the harnesses.
 #pragma once
+#include <memory>
+#include <new>
 #include <covfie/core/backend/primitive/array.hpp>
 #include <covfie/core/backend/primitive/constant.hpp>
 #include <covfie/core/backend/primitive/identity.hpp>
@@ -77,6 +79,20 @@ template <class... Ts>
 auto pack(Ts... a)
 {
     return covfie::make_parameter_pack(std::move(a)...);
+}
+
+// A copy of a view is a view in its own right: after the copy has been taken, the original is made to view another
+// field (`other`) and is then destroyed and its memory released. Lookups through the returned copy must still see `f`.
+template <class B>
+typename covfie::field<B>::view_t detached_view(const covfie::field<B> & f, const covfie::field<B> & other)
+{
+    using V = typename covfie::field<B>::view_t;
+    std::unique_ptr<V> vp = std::make_unique<V>(f);
+    V copy(*vp);
+    vp->~V();
+    new (vp.get()) V(other);
+    vp.reset();
+    return copy;
 }
 
 inline bool have_bmi2()
